@@ -336,13 +336,13 @@ def _is_valid_MatchMapping_key(ast: AST) -> bool:
 
 
 def _maybe_par_above(above: fst.FST, below: fst.FST) -> bool:
-    while (a := below.a).__class__ in (Attribute, Subscript):
+    while (a_cls := (a := below.a).__class__) in (Attribute, Subscript, Call):
         if below.pars().n:
             above._parenthesize_grouping()
 
             return True
 
-        below = a.value.f
+        below = (a.func if a_cls is Call else a.value).f
 
     else:
         if a.__class__ is Name and below.pars().n:
@@ -1189,6 +1189,9 @@ def _put_one_AnnAssign_target(
     """Update simple according to what was put."""
 
     ret = _put_one_exprlike_required(self, code, idx, field, child, static, options)
+
+    if (a := ret.a).__class__ in (Attribute, Subscript) and not ret.pars().n:  # '(a).b: int' is not allowed, '((a).b): int' is
+        _maybe_par_above(ret, a.value.f)
 
     self.a.simple = 1 if ret.a.__class__ is Name and not ret.pars().n else 0
 
